@@ -211,7 +211,7 @@ func (g *gen) length(label string, prefixMax uint64) int {
 		}
 		capBig = min(capBig, c)
 	}
-	if g.o.BigProb > 0 && capBig > 300 && rapid.IntRange(0, g.o.BigProb-1).Draw(g.rt, label+".big") == 0 {
+	if g.o.BigProb > 0 && capBig > 300 && rapid.IntRange(0, g.o.BigProb-1).Draw(g.rt, label+".big") == g.o.BigProb-1 { // max draw, so shrinking moves away from big
 		switch rapid.IntRange(0, 3).Draw(g.rt, label+".bigc") {
 		case 0:
 			return capBig
